@@ -151,6 +151,7 @@ pub fn eval_array(ctx: &mut Ctx, bits: &[bool], width: usize, tag: &str) {
                 return ctx.violation("valid_rendering_rejected", &case(), format!("{:?}", e));
             }
             ctx.count(&format!("arr.rejected.{:?}", e));
+            ctx.count("arr.rejected_invalid_rendering");
         }
     }
     ctx.count(&format!("arr.{}", tag));
